@@ -392,6 +392,7 @@ func (t *simTransport) RoundTrip(req *http.Request) (*http.Response, error) {
 	mimeType := file.Mime
 	charset := file.Charset
 	failAt := -1
+	cutAt := -1
 	outcome := "ok"
 	if flt != nil {
 		t.sm.fire("http-" + flt.Kind)
@@ -403,6 +404,9 @@ func (t *simTransport) RoundTrip(req *http.Request) (*http.Response, error) {
 		case "trunc":
 			// connection dies after N body bytes (on the wire, i.e. after compression)
 			failAt = flt.N
+		case "cut":
+			// the peer closes cleanly after N wire bytes (no Content-Length): a short body, no error
+			cutAt = flt.N
 		default:
 			d, mime, cs, _, _ := mutate(flt, data, func(name string) []byte {
 				if o, ok := sc.Files[name]; ok {
@@ -441,6 +445,9 @@ func (t *simTransport) RoundTrip(req *http.Request) (*http.Response, error) {
 	resp.StatusCode, resp.Status = 200, "200 OK"
 	if failAt > len(wire) {
 		failAt = -1
+	}
+	if cutAt >= 0 && cutAt < len(wire) {
+		wire = wire[:cutAt]
 	}
 	resp.Body = &chunkBody{data: wire, failAt: failAt, rng: simrt.SplitMix(simrt.HashString(url) ^ uint64(mySeq))}
 	resp.ContentLength = -1
